@@ -23,6 +23,25 @@ CLAIMS["C16"] = {
     "technique": "static analysis: type inference for unordered containers + consumer classification, ambient-input inventory, effect (self-store) audit, CFG dominance for guards and restores",
 }
 
+CLAIMS["C07"] = {
+    "decides": "schema-driven exhaustiveness of the subsetter: every table that stores per-glyph data (reaches GlyphID/Coverage/ClassDef/AAT lookup/glyph-indexed maps in otData, or uses the glyph-order API) has a subset_glyphs handler or is dropped, and none is exempted through the no-subset list; every GSUB/GPOS lookup class has its closure/subset/lookup-renumbering handlers; the glyph order is switched only after all tables were subset and the gid map derives from the same order-preserving list; var-index maps returned by the store are applied (GDEF and GPOS paired); no set-order reaches numbering in subset/.",
+    "design_ref": "DESIGN.md §3.3 F20, §3.6 F19, §4 C07",
+    "note": "Trusted: otData schema loader, decorator-injection model (_add_method), frozen fallthrough table in sa/rules/exhaust.py. Not decided: closure correctness, class renumbering arithmetic, CFF subroutine pruning.",
+    "technique": "static analysis: schema reachability vs. handler registry (exhaustiveness), CFG post-dominance, result-use (must-use) check",
+}
+CLAIMS["C08"] = {
+    "decides": "every table that carries variation data per the otData schema (VarStore/MultiVarStore/VarIndex) or by definition (gvar, cvar, CFF2, avar, fvar, STAT) is dispatched to an instancing handler under a presence test, each handler has a path deleting the table/store when nothing varies; orchestration order (variation tables before fvar, limits normalised before mutation, avar before fvar, fvar/STAT on all paths, fvar deleted only when all axes pinned); store-optimisation index maps are applied and GDEF/GPOS remaps paired.",
+    "design_ref": "DESIGN.md §3.3 F20, §4 C08",
+    "note": "Trusted: schema loader, handler table in sa/rules/exhaust.py. Not decided: tent rebasing, delta scaling/rounding, IUP.",
+    "technique": "static analysis: schema reachability vs. dispatcher (exhaustiveness), CFG dominance/reachability between calls, must-use of returned maps",
+}
+CLAIMS["C17"] = {
+    "decides": "reorderGlyphs: every rule's attribute strings resolve in the schema for its (class, format); a rule re-sorting a Coverage names every array the OpenType spec indexes by that coverage (frozen 30-row spec table cross-checked against the schema: every schema (class, format) with a Coverage is classified); glyph-keyed record arrays are re-sorted; every table reaching ruled classes is a coverage container; decode-all and loaded check dominate the order switch; CFF charset/charStrings rebuilt in the new order; reverse map invalidated. scaleUpem: registered attributes exist; fields of head/hhea/vhea/OS2/post/VORG are registered or frozen non-unit; every otData field whose description says design units is registered; only FontMatrix is divided; vsindex skipped; VARC delta walk follows VAR_TRANSFORM_MAPPING.",
+    "design_ref": "DESIGN.md §3.3 F20, §4 C17",
+    "note": "Trusted: schema loader; frozen spec tables COVERAGE_PARALLEL / NON_UNIT_FIELDS (OpenType spec provenance). Not decided: rounding, HarfBuzz-observable equality. A missing reorder rule (unsorted coverage) is not armed because Coverage.preWrite compiles unsorted coverages consistently.",
+    "technique": "static analysis: registry strings resolved against the otData schema, spec-table completeness, CFG dominance",
+}
+
 _PENDING = "check not built yet in this round (planned structural clauses in DESIGN.md §4); not claimed until its check exists"
 NOT_APPLICABLE = {
     "C05": "numeric equality of outlines/advances with independent rasterisers at every location: runtime values only; no structural clause that is a necessary condition and survives refactoring (DESIGN §4 C05)",
@@ -30,5 +49,5 @@ NOT_APPLICABLE = {
     "C14": "geometric equality through pen adapters over all call sequences: adapters may legally buffer/merge/re-emit calls, so no forwarding-shape rule is both necessary and refactoring-stable (DESIGN §4 C14)",
     "C18": "rendering equivalence of merged fonts: only weak structural facts (first-writer-wins cmap guard) exist, not enough for a necessary-condition clause (DESIGN §4 C18)",
 }
-for _p in ("C01", "C02", "C03", "C04", "C06", "C07", "C08", "C10", "C11", "C12", "C13", "C17", "C19"):
+for _p in ("C01", "C02", "C03", "C04", "C06", "C10", "C11", "C12", "C13", "C19"):
     NOT_APPLICABLE[_p] = _PENDING
